@@ -212,6 +212,49 @@ def identifier_equality(prog, res, rule="R-IDENT-EQ"):
         raise AnalysisBroken("identifier comparison helpers of source and sink not found")
 
 
+def identifier_tracked(prog, res, rule="R-IDENT-EQ"):
+    """The identifier the equality helper is asked about next time is the one
+    of the device that is open: after every open in a configure function the
+    remembered identifier is overwritten with the requested one on every path
+    to a successful return."""
+    n = 0
+    for fname, opener in (("video_source_configure", "camera_open"), ("video_sink_configure", "storage_open")):
+        f = prog.func(fname)
+        res.touched(f)
+        idp = [p for p in f.params if p.get("r") == "DeviceIdentifier" and p.get("pd")]
+        remembered = None
+        for b, i, s in f.all_stmts():
+            for c in ir.calls_in(s):
+                g = prog.resolve(c["fn"], f) if c.get("fn") else None
+                if g is not None and len(g.params) == 2 and all(p.get("r") == "DeviceIdentifier" for p in g.params):
+                    for a in c["args"]:
+                        a0 = ir.strip(a)
+                        if isinstance(a0, dict) and a0.get("k") == "addr":
+                            remembered = ir.ap(a0["e"])
+        opens = [(b.id, i) for b, i, s in f.all_stmts() if any(c.get("fn") == opener for c in ir.calls_in(s))]
+        if not idp or remembered is None or not opens:
+            raise AnalysisBroken("%s: identifier parameter / remembered identifier / %s call not found" % (fname, opener))
+        oks = {(b.id, i) for b, i, s in f.all_stmts() if s.get("k") == "ret" and isinstance(ir.strip(s.get("e")), dict)
+               and ir.strip(s["e"]).get("e") == "Device_Ok"}
+
+        def remembers(s, remembered=remembered, pid=idp[0]["id"]):
+            for lv, op, rhs, w in ir.writes_of(s):
+                if ir.ap(lv) == remembered and op == "=" and isinstance(rhs, dict) and \
+                        any(y.get("k") == "var" and y.get("id") == pid for y in ir.walk(rhs)):
+                    return True
+            return False
+        n += 1
+        inst = "%s: %s is the identifier of the device that is open" % (fname, remembered)
+        ok = all(paths.all_paths_pass(f, o, oks, paths.through_callees(prog, f, remembers))[0] for o in opens) if oks else False
+        if ok:
+            res.oblige(rule, inst, True, "stored from the requested identifier on every path from %s to a successful return" % opener, f.loc())
+        else:
+            res.fail(rule, inst, "%s|%s|track" % (rule, fname), f.loc(),
+                     "%s can open a device and return success without recording its identifier in %s: the next configure compares against a stale "
+                     "identifier and keeps a device that should have been exchanged (or the reverse)" % (fname, remembered))
+    return n
+
+
 def append_only_from_sink(prog, res):
     callers = set()
     for f in prog.all_funcs():
@@ -343,7 +386,8 @@ def run(ctx, res):
     guard_start(prog, res)
     append_only_from_sink(prog, res)
     res.guard(identifier_equality, prog, res)
-    res.require_min("R-IDENT-EQ", 2)
+    res.guard(identifier_tracked, prog, res)
+    res.require_min("R-IDENT-EQ", 4)
     shutdown_order(prog, res)
     state_from_flags(prog, res)
     if ctx.tier == "thorough":
